@@ -12,7 +12,7 @@ ProgsIn == ndJsonDeserialize(IOEnv.PROGS)
 Nodes == ndJsonDeserialize(IOEnv.TRIE)
 Diag == "DIAG" \in DOMAIN IOEnv /\ IOEnv.DIAG = "1"
 
-INSTANCE Shuttle WITH Progs <- ProgsIn, TrackWoken <- TRUE
+INSTANCE Shuttle WITH Progs <- ProgsIn, TrackWoken <- TRUE, SpuriousWakeups <- TRUE
 
 VARIABLES node, S
 vars == <<node, S>>
@@ -26,7 +26,8 @@ Variants(s) ==
   LET v1 == Step1({s})
       v2 == Step1(Going(v1))
       v3 == Step1(Going(v2))
-  IN {s} \cup v1 \cup v2 \cup v3
+      v4 == Step1(Going(v3))
+  IN {s} \cup v1 \cup v2 \cup v3 \cup v4
 
 \* the yield flag belongs to the first decision taken inside a yield-requesting operation
 ExpectedY(s) ==
@@ -80,7 +81,7 @@ Spec == Init /\ [][Next]_vars
 
 \* reached leaves are reported (one line per leaf and surviving inference branch)
 LeafInv == (Nodes[node].kids = <<>> => PrintT(<<"LEAF", node>>))
-           /\ (Diag => PrintT(<<"AT", node, S>>))
+           /\ (Diag => PrintT(<<"AT", node, ToString(S)>>))
 \* every abstract-state invariant is evaluated at every step of every real execution
 SafetyInv == node = 1 \/ S.p = 0 \/ StateInv(S)
 =============================================================================
